@@ -113,6 +113,10 @@ def modelStep (ms : MState) (line : String) : MState × String :=
         (ms2, joinObs (s!"cancelreturned {id}" :: out))
       else (ms, "none")
     | _, _ => (ms, "bad-op")
+  | ["reuse", _, _, _] =>
+    -- the application writes another token into the request message it registered with (second use of the message): the
+    -- observation's token is a VALUE fixed at registration, nothing changes (`Model/ObserveReuse.lean`, `arun_eq_run_lowered`)
+    (ms, "none")
   | ["end"] => (ms, "end")
   | _ => (ms, "bad-op")
 
